@@ -13,8 +13,6 @@
                                a refused duplicate is SKeyError
      out_rel                   SRejected = raises TypeError or ValueError,
                                SKeyError = raises KeyError, SRet o = returns o
-     benign o                  o is not one of the two operation shapes on
-                               which the code is refuted below
    str.lower() is modelled for ASCII A-Z only (names are US-ASCII tokens). *)
 From Coq Require Import ZArith List Bool.
 Require Import PW.lib.Val PW.model.Headers PW.proofs.HeadersProofs.
@@ -47,68 +45,30 @@ Print Assumptions C14_stored_is_latin1.
 
 (* ---- the multimap *)
 
-(* FULL STATEMENT (false of the code, see the three _refuted theorems):
-     forall ops s,
-       Forall2 (fun a b => fst a = fst b /\ out_rel (snd a) (snd b))
-               (run s ops) (srun utf8_encode s ops).
-   PROVED: the same for every history all of whose operations are benign,
-   from every start state.  Missing: histories containing (a) a None/int
-   name given to add, [], del, setdefault, get, get_all, in (the code raises
-   AttributeError, the reference wants TypeError/ValueError) or (b)
-   h[name] = value with an acceptable name and an unacceptable value (the
-   code deletes the entries of name before it raises). *)
-Theorem C14_refines_multimap_partial :
-  forall ops s, forallb benign ops = true ->
+(* The code refines the reference multimap: for EVERY history of operations
+   (hostile arguments included) from every start state, the stored pairs and
+   the outcome after every step are those of the reference. *)
+Theorem C14_refines_multimap :
+  forall ops s,
     Forall2 (fun a b => fst a = fst b /\ out_rel (snd a) (snd b))
             (run s ops) (srun utf8_encode s ops).
 Proof. exact run_refines. Qed.
-Print Assumptions C14_refines_multimap_partial.
+Print Assumptions C14_refines_multimap.
 
-Theorem C14_refines_all_operations_refuted :
-  exists s o,
-    ~ (fst (step s o) = fst (spec_step utf8_encode s o) /\
-       out_rel (snd (step s o)) (snd (spec_step utf8_encode s o))).
-Proof. exact refines_all_operations_refuted. Qed.
-Print Assumptions C14_refines_all_operations_refuted.
-
-(* Headers().add(5, 'x') raises AttributeError *)
-Theorem C14_nonstr_name_attributeerror_refuted :
-  exists s n v,
-    snd (spec_step utf8_encode s (OAdd n v)) = SRejected /\
-    step s (OAdd n v) = (s, Raised AttributeError).
-Proof. exact nonstr_name_attributeerror_refuted. Qed.
-Print Assumptions C14_nonstr_name_attributeerror_refuted.
-
-(* h = Headers([('X','1')], strict=False); h['x'] = 5 raises TypeError and
-   leaves h empty *)
-Theorem C14_set_rejected_value_deletes_refuted :
-  exists s n v,
-    spec_step utf8_encode s (OSet n v) = (s, SRejected) /\
-    step s (OSet n v) = ([], Raised TypeError) /\ s <> [].
-Proof. exact set_rejected_value_deletes_refuted. Qed.
-Print Assumptions C14_set_rejected_value_deletes_refuted.
-
-(* FULL STATEMENT: whatever the reference rejects (a non-str or unencodable
-   name or value, an empty header) raises TypeError or ValueError and
-   leaves the collection unchanged.
-   PROVED for every operation and state: it raises TypeError, ValueError or
-   AttributeError (never returns, never KeyError) ... *)
-Theorem C14_non_string_rejected_partial :
+(* whatever the reference rejects (a non-str or unencodable name or value,
+   an empty header) raises TypeError or ValueError ... *)
+Theorem C14_non_string_rejected :
   forall s o, snd (spec_step utf8_encode s o) = SRejected ->
-    exists e, snd (step s o) = Raised e /\
-              (e = TypeError \/ e = ValueError \/ e = AttributeError).
+    snd (step s o) = Raised TypeError \/ snd (step s o) = Raised ValueError.
 Proof. exact invalid_raises. Qed.
-Print Assumptions C14_non_string_rejected_partial.
+Print Assumptions C14_non_string_rejected.
 
-(* ... and an operation that raises, whatever it raises, stores nothing: the
-   state is unchanged, or the operation is h[n] = v and the state is that
-   after del h[n].  Missing for the full statement: the second disjunct. *)
-Theorem C14_raise_never_stores_partial :
-  forall s o e, snd (step s o) = Raised e ->
-    fst (step s o) = s \/
-    exists n v, o = OSet n v /\ delitem s n = Ok (fst (step s o)).
+(* ... and an operation that raises, whatever it raises, leaves the
+   collection unchanged *)
+Theorem C14_raise_never_stores :
+  forall s o e, snd (step s o) = Raised e -> fst (step s o) = s.
 Proof. exact raise_never_stores. Qed.
-Print Assumptions C14_raise_never_stores_partial.
+Print Assumptions C14_raise_never_stores.
 
 (* Every stored name and value is the UTF-8 encoding (read as latin-1) of
    the supplied text: after every step of every history the stored pairs
@@ -117,11 +77,11 @@ Print Assumptions C14_raise_never_stores_partial.
    code raises KeyError / TypeError-or-ValueError exactly where that
    multimap refuses / rejects (okind, skind: 0 returns, 1 KeyError,
    2 TypeError|ValueError).
-   PROVED for benign histories without strict=False construction (which
-   stores its input as it is).  Missing: as for refines_multimap. *)
-Theorem C14_stored_is_utf8_of_supplied_text_partial :
+   For every history without strict=False construction (which stores its
+   input as it is, by design). *)
+Theorem C14_stored_is_utf8_of_supplied_text :
   forall ops mt,
-    forallb benign ops = true -> forallb strict_op ops = true ->
+    forallb strict_op ops = true ->
     Forall2 (fun a b =>
                fst a = map (fun kv => (utf8_encode (fst kv),
                                        utf8_encode (snd kv))) (fst b) /\
@@ -130,7 +90,7 @@ Theorem C14_stored_is_utf8_of_supplied_text_partial :
                       mt) ops)
             (srun (fun t => t) mt ops).
 Proof. exact run_stores_utf8_of_texts. Qed.
-Print Assumptions C14_stored_is_utf8_of_supplied_text_partial.
+Print Assumptions C14_stored_is_utf8_of_supplied_text.
 
 (* ---- the named consequences, on the code directly *)
 
